@@ -172,12 +172,39 @@ Theorem C18_vba_project_roundtrip :
     sem dir_chunks = encode_dir p ->
     p_mods p = map fst mbs ->
     Forall body_ok mbs ->
-    NoDup (map fst (project_streams decode p dir_chunks mbs)) ->
+    NoDup (stream_keys (project_streams decode p dir_chunks mbs)) ->
     vba_project decode (project_streams decode p dir_chunks mbs)
     = Ok (mkproject (p_codepage p) refs
             (map (fun mb => (decode (p_codepage p) (ms_name (fst mb)), sem (mb_chunks (snd mb))))
                  mbs)).
 Proof. exact vba_project_roundtrip. Qed.
+
+(* CFB-1 (audit 2): compound-file names compare up to the case of their ASCII letters ([MS-CFB] 2.6.4;
+   Cfb::find since the fix).  [stream_keys]: the names of one storage are distinct up to case.
+   [respelled l l']: the same streams, every name in another case spelling.  The project reader
+   does not see the difference, so the round trip holds for a container that stores dir, the
+   module streams … under ANY case spelling (DIR, MODULE1 for the recorded Module1, …) *)
+Theorem C18_vba_project_respelled :
+  forall (decode : N -> list N -> list N) (l l' : list (list N * list N)),
+    respelled l l' -> vba_project decode l = vba_project decode l'.
+Proof. exact vba_project_respelled. Qed.
+
+Theorem C18_vba_project_roundtrip_any_case :
+  forall (decode : N -> list N -> list N) (p : proj) (dir_chunks : list chunk)
+         (mbs : list (mod_spec * mod_body)) (refs : list reference) (streams : list (list N * list N)),
+    valid_projb p = true ->
+    expected_refs decode (p_codepage p) (p_refs p) = Some refs ->
+    Forall valid_chunk dir_chunks -> known_C18 dir_chunks = None ->
+    sem dir_chunks = encode_dir p ->
+    p_mods p = map fst mbs ->
+    Forall body_ok mbs ->
+    NoDup (stream_keys (project_streams decode p dir_chunks mbs)) ->
+    respelled (project_streams decode p dir_chunks mbs) streams ->
+    vba_project decode streams
+    = Ok (mkproject (p_codepage p) refs
+            (map (fun mb => (decode (p_codepage p) (ms_name (fst mb)), sem (mb_chunks (snd mb))))
+                 mbs)).
+Proof. exact vba_project_roundtrip_any_case. Qed.
 
 (* get_module: for EVERY decoder and on EVERY container the project reader accepts, the text
    returned for a module name is the decoder of the project's code page (the one read from the
@@ -215,7 +242,7 @@ Theorem C18_module_text_roundtrip :
     sem dir_chunks = encode_dir p ->
     p_mods p = map fst mbs ->
     Forall body_ok mbs ->
-    NoDup (map fst (project_streams decode p dir_chunks mbs)) ->
+    NoDup (stream_keys (project_streams decode p dir_chunks mbs)) ->
     NoDup (map (fun mb => decode (p_codepage p) (ms_name (fst mb))) mbs) ->
     In mb mbs ->
     exists pj : project,
@@ -275,12 +302,20 @@ Example C18_project_nonvacuous :
   (exists refs, expected_refs dec_id 1252 (p_refs ex_proj) = Some refs /\ length refs = 8%nat) /\
   Forall valid_chunk ex_dir_chunks /\ sem ex_dir_chunks = encode_dir ex_proj /\
   p_mods ex_proj = map fst ex_bodies /\ Forall body_ok ex_bodies /\
-  NoDup (map fst (project_streams dec_id ex_proj ex_dir_chunks ex_bodies)).
+  NoDup (stream_keys (project_streams dec_id ex_proj ex_dir_chunks ex_bodies)).
 Proof. split; [reflexivity|exact ex_project_valid]. Qed.
+(* the example project in a container whose writer upper-cased every stream name (DIR, …) *)
+Example C18_respelled_nonvacuous :
+  let up := map (fun x => (sn_key (fst x), snd x)) (project_streams dec_id ex_proj ex_dir_chunks ex_bodies) in
+  respelled (project_streams dec_id ex_proj ex_dir_chunks ex_bodies) up /\
+  map fst up <> map fst (project_streams dec_id ex_proj ex_dir_chunks ex_bodies) /\
+  hd [] (map fst up) = [68; 73; 82] /\
+  vba_project dec_id up = vba_project dec_id (project_streams dec_id ex_proj ex_dir_chunks ex_bodies).
+Proof. exact ex_project_upper_case. Qed.
 (* a decoder that is not the identity, distinct module names: the text is the decoding *)
 Example C18_module_text_nonvacuous :
   NoDup (map (fun mb => dec_shift 1252 (ms_name (fst mb))) ex_bodies) /\
-  NoDup (map fst (project_streams dec_shift ex_proj ex_dir_chunks ex_bodies)) /\
+  NoDup (stream_keys (project_streams dec_shift ex_proj ex_dir_chunks ex_bodies)) /\
   exists pj, vba_project dec_shift (project_streams dec_shift ex_proj ex_dir_chunks ex_bodies) = Ok pj /\
     get_module dec_shift pj [333; 305]
     = Some [339; 373; 354; 339; 373; 354; 339; 373; 354; 266].
@@ -353,6 +388,8 @@ Print Assumptions C18_module_from_offset.
 Print Assumptions C18_dir_roundtrip.
 Print Assumptions C18_module_record_roundtrip.
 Print Assumptions C18_vba_project_roundtrip.
+Print Assumptions C18_vba_project_respelled.
+Print Assumptions C18_vba_project_roundtrip_any_case.
 Print Assumptions C18_module_lookup.
 Print Assumptions C18_libid_split.
 Print Assumptions C18_libid_no_hash.
